@@ -374,7 +374,7 @@ func oracleC03() *Result {
 		{"0", "int", "5.6,7.4"}, {"7", "int", "5.6,7.4"}, {"42", "int", "5.6,7.4"}, {"9223372036854775807", "int", "5.6,7.4"},
 		{"9223372036854775808", "str", "5.6,7.4"}, {"99999999999999999999", "str", "5.6,7.4"},
 		{"0x1F", "str", "5.6,7.4"}, {"0xff", "str", "5.6,7.4"}, {"0b11", "str", "5.6,7.4"}, {"012", "str", "5.6,7.4"}, {"00", "str", "5.6,7.4"}, {"007", "str", "5.6,7.4"},
-		{"b", "str", "5.6,7.4"}, {"foo_1", "str", "5.6,7.4"},
+		{"b", "str", "5.6,7.4"}, {"foo_1", "str", "5.6,7.4"}, {"1_0", "str", "7.4"}, {"1_000_000", "str", "7.4"}, {"0_1", "str", "7.4"},
 		{"-1", "negint", "7.4"}, {"-42", "negint", "7.4"}, {"-9223372036854775807", "negint", "7.4"},
 		{"-0x1F", "str", "7.4"}, {"-0b11", "str", "7.4"}, {"-99999999999999999999", "str", "7.4"}, {"-012", "str", "7.4"}, {"-0", "str", "7.4"},
 	}
